@@ -369,10 +369,10 @@ class Run:
     def count(self, key, n=1):
         self.dist[key] = self.dist.get(key, 0) + n
 
-    def case(self, canon, nontrivial=True, sample_every=0):
+    def case(self, canon, nontrivial=True, sample_every=0, key=None):
         self.evaluations += 1
         if nontrivial:
-            self.distinct.add(hash(canon))
+            self.distinct.add(hash(canon if key is None else key))
         if len(self.samples) < 6 or (sample_every and self.evaluations % sample_every == 0 and len(self.samples) < 12):
             self.samples.append(canon if len(str(canon)) < 400 else str(canon)[:400] + "…")
 
